@@ -11,7 +11,7 @@ import os
 import sys
 
 REPO = os.environ.get("PYMWP_REPO", "/repo")
-GEN = os.path.join(os.path.dirname(os.path.abspath(__file__)), "..", "coq", "gen")
+GEN = os.path.join(os.environ.get("VERIF_COQ_DIR") or os.path.join(os.path.dirname(os.path.abspath(__file__)), "..", "coq"), "gen")
 
 
 class TranslateError(Exception):
